@@ -206,6 +206,10 @@ func c16Eval(cs c16Case, entry string, repeats int) *Case {
 
 func runC16(r *Run, replay *Case) {
 	if replay != nil {
+		if replay.Input["stream"] == "chain-history" {
+			c16ChainHistories(r)
+			return
+		}
 		for _, cs := range c16Cases() {
 			if cs.desc == replay.Input["desc"] {
 				if c := c16Eval(cs, replay.Input["entry"].(string), 3); c != nil {
@@ -215,13 +219,16 @@ func runC16(r *Run, replay *Case) {
 		}
 		return
 	}
+	c16ChainHistories(r)
 	for _, cs := range c16Cases() {
 		if !strings.Contains(cs.files[cs.page], "layout:") {
 			r.Add(pageCase("once:"+cs.desc, cs.files, nil, cs.page, map[string]any{"items": []any{1, 2, 3}}))
 		}
 	}
 	r.Res.Rule = "placements of one or more v-once elements (top level, loop child, loop root, nested loops, component included 1..3 times, several components, component in a loop, layout + page, v-if branch) x " +
-		"four entry points x 3 repeated renders on one engine, and each placement rendered after a FAILED render of the same template (4 rounds, same process); non-trivial = every case; distinct by (placement, entry point)"
+		"four entry points x 3 repeated renders on one engine, and each placement rendered after a FAILED render of the same template (4 rounds, same process); " +
+		"stream once-chain-history: v-once on every subset of the members of a chain of 1..3 members x every sequence of truth values over 3 rows (4 in the thorough tier), in a loop and as a component included once per row, " +
+		"the expected marker sequence computed from the rule (a member is used up only when it is rendered), each page also compared with the model; non-trivial = every case; distinct by (placement, entry point)"
 	for _, cs := range c16Cases() {
 		for _, e := range c16Entries {
 			if c := c16Eval(cs, e, 3); c != nil {
